@@ -1989,6 +1989,13 @@ impl Parser {
                     let ty = Self::r#type(child)?;
                     type_vec.push(ty);
                 }
+                Rule::open_ended_type => {
+                    return Err(new_err(
+                        child.as_span(),
+                        &input.user_data().get_source_file_name(),
+                        "an open-ended element (`TYPE...`) after fixed elements is not supported; use `[TYPE...]` or a fixed-shape list type".to_owned(),
+                    ))
+                }
                 other_rule => unreachable!("{other_rule:?}"),
             }
         }
